@@ -327,7 +327,8 @@ class RecordingLink:
         self.step = 0
 
     def send_packet(self, pk):
-        if self.mode == 'now':
+        if self.mode == 'now' or not self.owner:
+            # (packets of the version negotiation are not commands: they do not go through the queue of objects)
             self.sent.append(_wire(pk))
             return True
         while len(self.pending) >= CAP:
